@@ -93,7 +93,14 @@ func (c *vFakeConn) SetWriteDeadline(t time.Time) error { return nil }
 // (within a generous real-time limit), whether it closed the connection, and
 // the value of a panic that escaped the handler, if any.
 func vServeStream(e *vEnv, stream []byte, ip string, port int, limit time.Duration) (out []byte, returned, closed bool, panicked any) {
+	out, returned, closed, panicked, _ = vServeStreamN(e, stream, ip, port, limit)
+	return
+}
+
+// vServeStreamN also reports how many bytes of the stream the server left unread.
+func vServeStreamN(e *vEnv, stream []byte, ip string, port int, limit time.Duration) (out []byte, returned, closed bool, panicked any, unread int) {
 	conn := vNewFakeConn(stream, ip, port)
+	defer func() { unread = conn.unread() }()
 	done := make(chan any, 1)
 	go func() {
 		defer func() { done <- recover() }()
@@ -101,9 +108,9 @@ func vServeStream(e *vEnv, stream []byte, ip string, port int, limit time.Durati
 	}()
 	select {
 	case p := <-done:
-		return conn.output(), true, conn.isClosed(), p
+		return conn.output(), true, conn.isClosed(), p, 0
 	case <-time.After(limit):
-		return conn.output(), false, conn.isClosed(), nil
+		return conn.output(), false, conn.isClosed(), nil, 0
 	}
 }
 
